@@ -285,6 +285,8 @@ type simSink struct {
 
 var _ packets.Sink = (*simSink)(nil)
 
+var errWriteBudget = fmt.Errorf("harness: more than 5000 packets written to one sink")
+
 func newSimSink(faults *faultPlan) *simSink { return &simSink{faults: faults} }
 
 func (s *simSink) WriteTo(buf []byte, addr netip.AddrPort) error {
@@ -298,6 +300,11 @@ func (s *simSink) WriteTo(buf []byte, addr netip.AddrPort) error {
 	}
 	p := outPkt{at: time.Now(), data: append([]byte(nil), buf...), to: addr}
 	s.mu.Lock()
+	if len(s.log) >= 5000 {
+		// no run writes more than a few hundred packets: a runaway sender ends here instead of exhausting memory
+		s.mu.Unlock()
+		return errWriteBudget
+	}
 	s.log = append(s.log, p)
 	cb := s.onWrite
 	s.mu.Unlock()
